@@ -387,7 +387,7 @@ static addrxlat_status
 next_reg_value_cb(const addrxlat_cb_t *cb, const char *name,
 		  addrxlat_addr_t *val)
 {
-	return cb->next->reg_value(cb, name, val);
+	return cb->next->reg_value(cb->next, name, val);
 }
 
 /** Call the next symbol value callback.
@@ -400,7 +400,7 @@ static addrxlat_status
 next_sym_value_cb(const addrxlat_cb_t *cb, const char *name,
 		  addrxlat_addr_t *val)
 {
-	return cb->next->sym_value(cb, name, val);
+	return cb->next->sym_value(cb->next, name, val);
 }
 
 /** Call the next symbol size callback.
@@ -413,7 +413,7 @@ static addrxlat_status
 next_sym_sizeof_cb(const addrxlat_cb_t *cb, const char *name,
 		   addrxlat_addr_t *val)
 {
-	return cb->next->sym_sizeof(cb, name, val);
+	return cb->next->sym_sizeof(cb->next, name, val);
 }
 
 /** Call the next element offset callback.
@@ -427,7 +427,7 @@ static addrxlat_status
 next_sym_offsetof_cb(const addrxlat_cb_t *cb, const char *obj,
 		     const char *elem, addrxlat_addr_t *val)
 {
-	return cb->next->sym_offsetof(cb, obj, elem, val);
+	return cb->next->sym_offsetof(cb->next, obj, elem, val);
 }
 
 /** Call the next number value callback.
@@ -440,7 +440,7 @@ static addrxlat_status
 next_num_value_cb(const addrxlat_cb_t *cb, const char *name,
 		  addrxlat_addr_t *val)
 {
-	return cb->next->num_value(cb, name, val);
+	return cb->next->num_value(cb->next, name, val);
 }
 
 addrxlat_cb_t *
